@@ -15,6 +15,7 @@ import difflib
 import logging
 import os
 import typing
+import uuid
 
 import pydantic.typing
 import re
@@ -678,14 +679,25 @@ class FlowIRExperimentConfiguration:
         This is version of FlowIR without any component replication
         """
         instance_file = os.path.join(self._conf_dir, 'flowir_instance.yaml')
-        with open(instance_file, 'w') as f:
-            primitive = self._unreplicated.instance(ignore_errors=True, inject_missing_fields=False,
-                                                    fill_in_all=False, is_primitive=True)
-            # primitive = experiment.model.frontends.flowir.FlowIR.compress_flowir(primitive)
-            pretty_primitive = experiment.model.frontends.flowir.FlowIR.pretty_flowir_sort(primitive)
-            experiment.model.frontends.flowir.yaml_dump(
-                pretty_primitive, f, sort_keys=False, default_flow_style=False
-            )
+        primitive = self._unreplicated.instance(ignore_errors=True, inject_missing_fields=False,
+                                                fill_in_all=False, is_primitive=True)
+        # primitive = experiment.model.frontends.flowir.FlowIR.compress_flowir(primitive)
+        pretty_primitive = experiment.model.frontends.flowir.FlowIR.pretty_flowir_sort(primitive)
+
+        # VV: Write to a temporary file and then rename it so that a failure while generating/serializing the
+        # FlowIR does not truncate the existing instance file
+        temp_file = '%s.%s.tmp' % (instance_file, uuid.uuid4())
+        try:
+            with open(temp_file, 'w') as f:
+                experiment.model.frontends.flowir.yaml_dump(
+                    pretty_primitive, f, sort_keys=False, default_flow_style=False
+                )
+        except Exception:
+            if os.path.exists(temp_file):
+                os.remove(temp_file)
+            raise
+        else:
+            os.rename(temp_file, instance_file)
 
     @property
     def configurationDirectory(self):
